@@ -162,6 +162,18 @@ pub fn oracle_extract_roundtrip(w: &mut Worker, case: &Case) -> Vec<Violation> {
         }
     };
     let _ = dec;
+    if case.meta.get("control_only").and_then(|x| x.as_bool()).unwrap_or(false) {
+        w.stats.nontrivial.insert(rng::hash_bytes(case.name.as_bytes()));
+        match outs.get(first + 1) {
+            Some(o) if o.ok() => match o.files.get("from_anm.anm") {
+                Some(b) if *b == original => w.stats.probe("extract-rt:dup-path-control-identical"),
+                _ => v.push(Violation { class: format!("extract-rt:from-anm-differs:{}", item), detail: case.name.clone() }),
+            },
+            Some(o) => v.push(Violation { class: format!("extract-rt:compile-from-anm-failed:{}", item), detail: format!("{}: {}", case.name, short(&o.stderr, 400)) }),
+            None => {}
+        }
+        return v;
+    }
     let ext = match outs.get(first + 1) {
         Some(o) => o,
         None => return v,
@@ -284,6 +296,41 @@ pub fn generated_case(seed: u64, idx: u64) -> Case {
     }
 }
 
+/// Several entries sharing ONE path but with different regions of the same PNG (different offsets and
+/// sizes), hence distinct textures: decompile -> spec, compile spec -i original.anm must reproduce the
+/// original, which requires matching same-path entries to source entries in order of appearance.
+/// (extract writes all of them to the same file, so the from-directory comparison is skipped.)
+pub fn dup_path_case(seed: u64, idx: u64) -> Case {
+    let mut rng = Rng::new(rng::mix(seed, "c17-dup", idx));
+    let (pw, ph) = (rng.range(4, 24) as u32, rng.range(4, 24) as u32);
+    let png = encode_png(pw, ph, &gen_pixels(pw, ph, &mut rng));
+    let n = rng.range(3, 5) as usize;
+    let game = *rng.pick(&["th12", "th10", "th16"]);
+    let mut t = String::from("#pragma mapfile \"map/any.anmm\"\n\n");
+    for k in 0..n {
+        let ox = rng.below(pw as u64) as u32;
+        let oy = rng.below(ph as u64) as u32;
+        let format = *rng.pick(&[1u32, 3, 5, 7]);
+        t.push_str(&format!(
+            "entry {{\n    path: \"{}\",\n    has_data: true,\n    img_format: {},\n    img_width: {},\n    img_height: {},\n    offset_x: {},\n    offset_y: {},\n    colorkey: 0,\n    memory_priority: 0,\n    low_res_scale: false,\n    sprites: {{sprite{}: {{id: {}, x: 0.0, y: 0.0, w: 1.0, h: 1.0}}}},\n}}\n\nscript script{} {{\n    ins_1();\n}}\n\n",
+            PATH, format, pw - ox, ph - oy, ox, oy, k, k, k
+        ));
+    }
+    let mut steps = vec![Step::new(vec![s("truanm"), s("compile"), s("-g"), s(game), s("gen.spec"), s("-i"), s("gen"), s("-o"), s("orig.anm")])];
+    steps.extend(roundtrip_steps("orig.anm", game));
+    // drop the extract and compile-from-dir steps: keep decompile + control
+    steps.remove(2);
+    steps.remove(2);
+    Case {
+        property: "C17".into(),
+        oracle: "extract-roundtrip".into(),
+        name: format!("dup-path#{} {} entries={} png={}x{}", idx, game, n, pw, ph),
+        inputs: vec![Input::tree("map/"), Input::text("gen.spec", &t), Input::bytes(&format!("gen/{}", PATH), png)],
+        steps,
+        meta: json!({"first": 1, "item": "dup-path", "control_only": true}),
+    }
+}
+
 pub fn multisource_cases(seed: u64, n: u64) -> Vec<Case> {
     let mut out = vec![];
     for idx in 0..n {
@@ -356,6 +403,38 @@ pub fn run(ctx: &Ctx) -> CheckResult {
     let n_gen = if quick { 220 } else { 4000 };
     for i in 0..n_gen {
         cases.push(generated_case(ctx.seed, i));
+    }
+    for i in 0..(if quick { 40 } else { 800 }) {
+        cases.push(dup_path_case(ctx.seed, i));
+    }
+    // (b') the directory holds an image of the wrong size for the entry (smaller or larger in either
+    // dimension, independently): the compile must fail loudly or succeed - never crash
+    for i in 0..(if quick { 60 } else { 1500 }) {
+        let mut rng = Rng::new(rng::mix(ctx.seed, "c17-wrongsize", i));
+        let (w, h) = (rng.range(1, 20) as u32, rng.range(1, 20) as u32);
+        let (ox, oy) = (rng.below(12) as u32, rng.below(12) as u32);
+        let pick = |r: &mut Rng, want: u32| -> u32 {
+            match r.below(4) {
+                0 => want,
+                1 => r.range(1, want.max(2) as u64) as u32,
+                2 => want + r.range(1, 9) as u32,
+                _ => r.range(1, 40) as u32,
+            }
+        };
+        let (pw, ph) = (pick(&mut rng, w + ox), pick(&mut rng, h + oy));
+        let explicit = rng.chance(1, 2);
+        let mut spec = gen_spec(*rng.pick(&[1u32, 3, 5, 7]), ox, oy, 1);
+        if explicit {
+            spec = spec.replace("    has_data: true,\n", &format!("    has_data: true,\n    img_width: {},\n    img_height: {},\n", w, h));
+        }
+        cases.push(Case {
+            property: "C17".into(),
+            oracle: "term".into(),
+            name: format!("wrong-size-image#{} entry {}x{}+{}+{} explicit={} png {}x{}", i, w, h, ox, oy, explicit, pw, ph),
+            inputs: vec![Input::tree("map/"), Input::text("gen.spec", &spec), Input::bytes(&format!("gen/{}", PATH), encode_png(pw, ph, &gen_pixels(pw, ph, &mut rng)))],
+            steps: vec![Step::new(vec![s("truanm"), s("compile"), s("-g"), s("th12"), s("gen.spec"), s("-i"), s("gen"), s("-o"), s("orig.anm")])],
+            meta: json!({}),
+        });
     }
     // (c) source orderings
     cases.extend(multisource_cases(ctx.seed, if quick { 150 } else { 2500 }));
